@@ -184,6 +184,9 @@ func (w *W) c11Docs(r *gen.Rand, k int) []*c11Doc {
 	add(w.c11MakeDoc(r, "edited", gen.Doc(r.Split(), gen.DocCfg{Size: 200 + r.Intn(2000), MaxDepth: 4, MaxFan: 6, Esc: 30, DupKeys: true}), false, 1+r.Intn(5)))
 	add(w.c11MakeDoc(r, "no-strings", []byte(`[1,2.5,true,null,[[],{}],-7,18446744073709551615,123456789012345678901234567890]`), false, 0))
 	add(w.c11MakeDoc(r, "one-string", []byte(`["only"]`), false, 0))
+	// nesting beyond every pre-sized scope stack (100, 128): the parser has no depth limit, so the
+	// serializer cannot have one either
+	add(w.c11MakeDoc(r, "deep", gen.Nest([]int{127, 128, 129, 130, 200, 1000}[k%6], k%3, `["x",1.5]`), false, 0))
 	add(w.c11MakeDoc(r, "flags", []byte(`{"a":99999999999999999999,"b":-99999999999999999999,"c":1e5,"d":[100000000000000000000,1.0]}`), false, 0))
 	var nd bytes.Buffer
 	for i := 0; i < 2+r.Intn(20); i++ {
